@@ -492,7 +492,7 @@ def run(ck):
                    "lib/c04gen.py: the generator of the library, of both callers and of the Rust-name expectation (rust_mangle transcribed by hand)",
                    "modelled, not verified: the actual parameter passing (exercised by the linked executables on the host only); C++ manglings are opaque strings to the model; "
                    "cross-target checks compare symbols, they execute nothing"]
-    ck.coverage["rule"] += "; C++: generated classes (namespaces, several constructors, destructors, const / non-const / static member functions, overloads, reference and pointer parameters) called from C++ and through the bindings, identical transcripts, with and without --enable-cxx-namespaces"
+    ck.coverage["rule"] += "; C++: generated classes (namespaces, several constructors, destructors, const / non-const / static member functions, overloads, reference and pointer parameters) called from C++ and through the bindings, identical transcripts, with and without --enable-cxx-namespaces; calling conventions on the host: an ms_abi / default-convention library (functions, typedef'd / inline / returned / passed / stored / global function pointers, callbacks written in Rust, aggregates by value) called from C and through the bindings, identical transcripts"
     vlib.coq_check_properties(ck, "theories/C04/Properties.v")
     vlib.build_harness()
     bindgen = vlib.build_cli()
@@ -505,6 +505,7 @@ def run(ck):
         cross_symbols(ck, bindgen, tmp, quick)
         cpp_classes(ck, bindgen, tmp, quick)
         fixed_cases(ck, bindgen, tmp)
+        callconv_host(ck, bindgen, tmp)
     finally:
         shutil.rmtree(tmp, ignore_errors=True)
 
@@ -815,6 +816,152 @@ def fixed_cases(ck, bindgen, tmp):
     ck.evaluations += 1
     if rc != 0 or (decls.get("plain") or {}).get("link") not in ("\x01pre_plain", "pre_plain"):
         ck.violation("C04-prefix-link-name", "--prefix-link-name does not produce the prefixed symbol", {"emitted": out[-300:], "stderr": err[-300:]})
+
+
+CC_H = """#define MS __attribute__((ms_abi))
+struct P2 { double x; double y; };
+struct Big { long a; long b; long c; };
+typedef int (MS *ms_op_t)(int, int, int, int, int);
+typedef int (*plain_op_t)(int, int, int, int, int);
+typedef int MS ms_fn_t(int, int, int, int, int);
+int MS ms_add5(int a, int b, int c, int d, int e);
+int plain_add5(int a, int b, int c, int d, int e);
+double MS ms_mix(double a, int b, double c, long d, float e, long f);
+struct P2 MS ms_ret_p2(int k);
+struct Big MS ms_ret_big(int k);
+long MS ms_take_big(struct Big v, int k, struct P2 p);
+int (MS *get_ms_op(int which))(int, int, int, int, int);
+MS int (*ms_get_plain_op(int which))(int, int, int, int, int);
+MS int (MS *ms_get_ms_op(int which))(int, int, int, int, int);
+ms_op_t get_ms_op_td(int which);
+int call_ms(ms_op_t f, int x);
+int call_ms_inline(int (MS *f)(int, int, int, int, int), int x);
+int call_ms_fn_td(ms_fn_t *f, int x);
+int MS ms_call_plain(int (*f)(int, int, int, int, int), int x);
+int MS ms_call_ms(ms_op_t f, int x);
+struct ops { ms_op_t ms; plain_op_t plain; int (MS *inl)(int, int, int, int, int); ms_fn_t *fn_td; };
+int use_ops(const struct ops *o, int x);
+extern ms_op_t g_ms_op;
+extern plain_op_t g_plain_op;
+extern int (MS *g_ms_inline)(int, int, int, int, int);
+"""
+CC_C = """#include "lib.h"
+static int w5(int a, int b, int c, int d, int e) { return a + 2 * b + 3 * c + 4 * d + 5 * e; }
+int MS ms_add5(int a, int b, int c, int d, int e) { return w5(a, b, c, d, e); }
+int plain_add5(int a, int b, int c, int d, int e) { return 1000 + w5(a, b, c, d, e); }
+double MS ms_mix(double a, int b, double c, long d, float e, long f) { return a + 2 * b + 3 * c + 4 * d + 5 * e + 6 * f; }
+struct P2 MS ms_ret_p2(int k) { struct P2 p = { k + 0.5, 2 * k + 0.25 }; return p; }
+struct Big MS ms_ret_big(int k) { struct Big v = { k, 2 * k, 3 * k }; return v; }
+long MS ms_take_big(struct Big v, int k, struct P2 p) { return v.a + 2 * v.b + 3 * v.c + 4 * k + (long)(5 * p.x + 6 * p.y); }
+static int MS ms_a(int a, int b, int c, int d, int e) { return 10 + w5(a, b, c, d, e); }
+static int MS ms_b(int a, int b, int c, int d, int e) { return 20 + w5(e, d, c, b, a); }
+static int pl_a(int a, int b, int c, int d, int e) { return 30 + w5(a, b, c, d, e); }
+static int pl_b(int a, int b, int c, int d, int e) { return 40 + w5(e, d, c, b, a); }
+int (MS *get_ms_op(int which))(int, int, int, int, int) { return which ? ms_a : ms_b; }
+MS int (*ms_get_plain_op(int which))(int, int, int, int, int) { return which ? pl_a : pl_b; }
+MS int (MS *ms_get_ms_op(int which))(int, int, int, int, int) { return which ? ms_b : ms_a; }
+ms_op_t get_ms_op_td(int which) { return which ? ms_b : ms_a; }
+int call_ms(ms_op_t f, int x) { return f(x, 1, 2, 3, 4); }
+int call_ms_inline(int (MS *f)(int, int, int, int, int), int x) { return f(4, x, 3, 2, 1); }
+int call_ms_fn_td(ms_fn_t *f, int x) { return f(1, 2, x, 4, 5); }
+int MS ms_call_plain(int (*f)(int, int, int, int, int), int x) { return f(5, 4, 3, 2, x); }
+int MS ms_call_ms(ms_op_t f, int x) { return f(x, x + 1, x + 2, x + 3, x + 4); }
+int use_ops(const struct ops *o, int x) { return o->ms(x, 1, 1, 1, 2) + 3 * o->plain(1, x, 1, 2, 1) + 5 * o->inl(1, 1, x, 1, 3) + 7 * o->fn_td(2, 1, 1, x, 1); }
+ms_op_t g_ms_op = ms_a;
+plain_op_t g_plain_op = pl_b;
+int (MS *g_ms_inline)(int, int, int, int, int) = ms_b;
+"""
+CC_CMAIN = r"""#include <stdio.h>
+#include "lib.h"
+static int MS cb_ms(int a, int b, int c, int d, int e) { return 7 + a + 3 * b + 5 * c + 7 * d + 9 * e; }
+static int cb_plain(int a, int b, int c, int d, int e) { return 9 + a + 3 * b + 5 * c + 7 * d + 9 * e; }
+int main(void) {
+  printf("ms_add5 %d\n", ms_add5(1, 2, 3, 4, 5));
+  printf("plain_add5 %d\n", plain_add5(1, 2, 3, 4, 5));
+  printf("ms_mix %.3f\n", ms_mix(1.5, 2, 2.5, 4, 0.5f, 6));
+  { struct P2 p = ms_ret_p2(3); printf("ms_ret_p2 %.3f %.3f\n", p.x, p.y); }
+  { struct Big v = ms_ret_big(4); printf("ms_ret_big %ld %ld %ld\n", v.a, v.b, v.c); }
+  { struct Big v = { 1, 2, 3 }; struct P2 p = { 1.0, 2.0 }; printf("ms_take_big %ld\n", ms_take_big(v, 9, p)); }
+  for (int w = 0; w < 2; w++) {
+    printf("get_ms_op %d %d\n", w, get_ms_op(w)(1, 2, 3, 4, 5));
+    printf("ms_get_plain_op %d %d\n", w, ms_get_plain_op(w)(1, 2, 3, 4, 5));
+    printf("ms_get_ms_op %d %d\n", w, ms_get_ms_op(w)(1, 2, 3, 4, 5));
+    printf("get_ms_op_td %d %d\n", w, get_ms_op_td(w)(1, 2, 3, 4, 5));
+  }
+  printf("call_ms %d\n", call_ms(cb_ms, 7));
+  printf("call_ms_inline %d\n", call_ms_inline(cb_ms, 7));
+  printf("call_ms_fn_td %d\n", call_ms_fn_td(cb_ms, 7));
+  printf("ms_call_plain %d\n", ms_call_plain(cb_plain, 7));
+  printf("ms_call_ms %d\n", ms_call_ms(cb_ms, 7));
+  { struct ops o = { cb_ms, cb_plain, cb_ms, cb_ms }; printf("use_ops %d\n", use_ops(&o, 6)); }
+  printf("g_ms_op %d\n", g_ms_op(1, 2, 3, 4, 5));
+  printf("g_plain_op %d\n", g_plain_op(1, 2, 3, 4, 5));
+  printf("g_ms_inline %d\n", g_ms_inline(1, 2, 3, 4, 5));
+  return 0;
+}
+"""
+CC_RMAIN = """#![allow(warnings)]
+include!("bindings.rs");
+extern "win64" fn cb_ms(a: i32, b: i32, c: i32, d: i32, e: i32) -> i32 { 7 + a + 3 * b + 5 * c + 7 * d + 9 * e }
+extern "C" fn cb_plain(a: i32, b: i32, c: i32, d: i32, e: i32) -> i32 { 9 + a + 3 * b + 5 * c + 7 * d + 9 * e }
+fn main() { unsafe {
+  println!("ms_add5 {}", ms_add5(1, 2, 3, 4, 5));
+  println!("plain_add5 {}", plain_add5(1, 2, 3, 4, 5));
+  println!("ms_mix {:.3}", ms_mix(1.5, 2, 2.5, 4, 0.5f32, 6));
+  { let p = ms_ret_p2(3); println!("ms_ret_p2 {:.3} {:.3}", p.x, p.y); }
+  { let v = ms_ret_big(4); println!("ms_ret_big {} {} {}", v.a, v.b, v.c); }
+  { let v = Big { a: 1, b: 2, c: 3 }; let p = P2 { x: 1.0, y: 2.0 }; println!("ms_take_big {}", ms_take_big(v, 9, p)); }
+  for w in 0..2 {
+    println!("get_ms_op {} {}", w, get_ms_op(w).unwrap()(1, 2, 3, 4, 5));
+    println!("ms_get_plain_op {} {}", w, ms_get_plain_op(w).unwrap()(1, 2, 3, 4, 5));
+    println!("ms_get_ms_op {} {}", w, ms_get_ms_op(w).unwrap()(1, 2, 3, 4, 5));
+    println!("get_ms_op_td {} {}", w, get_ms_op_td(w).unwrap()(1, 2, 3, 4, 5));
+  }
+  println!("call_ms {}", call_ms(Some(cb_ms), 7));
+  println!("call_ms_inline {}", call_ms_inline(Some(cb_ms), 7));
+  println!("call_ms_fn_td {}", call_ms_fn_td(Some(cb_ms), 7));
+  println!("ms_call_plain {}", ms_call_plain(Some(cb_plain), 7));
+  println!("ms_call_ms {}", ms_call_ms(Some(cb_ms), 7));
+  { let o = ops { ms: Some(cb_ms), plain: Some(cb_plain), inl: Some(cb_ms), fn_td: Some(cb_ms) }; println!("use_ops {}", use_ops(&o, 6)); }
+  println!("g_ms_op {}", g_ms_op.unwrap()(1, 2, 3, 4, 5));
+  println!("g_plain_op {}", g_plain_op.unwrap()(1, 2, 3, 4, 5));
+  println!("g_ms_inline {}", g_ms_inline.unwrap()(1, 2, 3, 4, 5));
+} }
+"""
+
+
+def callconv_host(ck, bindgen, tmp):
+    """x86_64 host: functions, function pointers (typedef'd, inline, returned, passed, stored, global) and callbacks under the ms_abi
+    convention next to the default one; five-plus arguments and aggregates so that a wrong convention shows in the printed values"""
+    for oi, flags in enumerate(([], ["--no-layout-tests", "--default-alias-style", "new_type"][:1] + ["--with-derive-default"], ["--merge-extern-blocks", "--sort-semantically"], ["--use-core", "--rust-target", "1.73"])):
+        d = os.path.join(tmp, "callconv%d" % oi)
+        os.makedirs(d)
+        for n, t in (("lib.h", CC_H), ("lib.c", CC_C), ("cmain.c", CC_CMAIN), ("main.rs", CC_RMAIN)):
+            open(os.path.join(d, n), "w").write(t)
+        ck.evaluations += 1
+        ck.nontrivial.add(("callconv", tuple(flags)))
+        for cmd in (["gcc", "-std=gnu11", "-w", "-c", "-o", "lib.o", "lib.c"], ["gcc", "-std=gnu11", "-w", "-o", "cmain", "cmain.c", "lib.o"]):
+            rc, o1, e1 = sh2(cmd, cwd=d, timeout=120)
+            if rc != 0:
+                raise TieBroken("c04-callconv-generator", e1[-1200:])
+        rc, c_out, e1 = sh2(["./cmain"], cwd=d, timeout=60)
+        rc, out, err = sh2([bindgen, os.path.join(d, "lib.h")] + flags, cwd=d, timeout=120)
+        base = {"header": CC_H, "flags": flags}
+        if rc != 0:
+            ck.violation("C04-callconv:bindgen-failed", "bindgen fails on the calling-convention library", dict(base, stderr=err[-600:]))
+            continue
+        open(os.path.join(d, "bindings.rs"), "w").write(out)
+        rc, o2, e2 = sh2(["rustc", "--edition", "2021", "-A", "warnings", "-C", "link-arg=lib.o", "-o", "rmain", "main.rs"], cwd=d, timeout=600)
+        if rc != 0:
+            ck.violation("C04-callconv:caller-does-not-build", "a Rust caller that passes extern \"win64\" / extern \"C\" callbacks where the C header has ms_abi / default function pointers does not build against the bindings",
+                         dict(base, rustc=re.findall(r"^error(?:\[E\d+\])?: .*$", e2, re.M)[:4], stderr=e2[-1500:]))
+            continue
+        rc, r_out, e3 = sh2(["./rmain"], cwd=d, timeout=60)
+        if rc != 0 or r_out != c_out:
+            cl, rl = c_out.splitlines(), r_out.splitlines()
+            diff = [(a, b) for a, b in zip(cl, rl) if a != b][:8]
+            ck.violation("C04-callconv:transcript", "calls through the bindings give other results than the same calls from C (calling convention of a function or function pointer)",
+                         dict(base, exit=rc, differing_lines=diff, c_lines=len(cl), rust_lines=len(rl), stderr=e3[-300:]))
 
 
 def replay(ck, path):
